@@ -274,9 +274,9 @@ class RealCodeViolation(Exception):
     """while comparing the model with the real function on the corpus, the real function did something the property forbids
     outright (an exception other than ValueError escaping): reported as a violation with a replay, not as a modelling error"""
 
-    def __init__(self, fn, w, what):
+    def __init__(self, fn, w, what, tz=None, body=None, cls="exception-escapes"):
         Exception.__init__(self, what)
-        self.fn, self.w, self.what = fn, w, what
+        self.fn, self.w, self.what, self.tz, self.body, self.cls = fn, w, what, tz, body, cls
 
 
 class DurationModel(object):
@@ -494,14 +494,14 @@ class DateModel(object):
         d = time_format.iso_utc_time_to_seconds.__defaults__
         pats = [x for x in (d or ()) if isinstance(x, re.Pattern)]
         if len(pats) != 1:
-            raise hlib.HarnessError("iso_utc_time_to_seconds: compiled default regex not found")
+            raise Unrecognised("date", "iso_utc_time_to_seconds: compiled default regex not found")
         self.pat = pats[0]
         self.rx = Rx(self.pat)
         f = _fn_ast(time_format.iso_utc_time_to_seconds)
         meths = [n.func.attr for n in ast.walk(f) if isinstance(n, ast.Call) and isinstance(n.func, ast.Attribute)
                  and isinstance(n.func.value, ast.Name) and n.func.value.id == "_conversion_re"]
         if len(meths) != 1 or meths[0] not in ("match", "search", "fullmatch"):
-            raise hlib.HarnessError("iso_utc_time_to_seconds: regex call not found")
+            raise Unrecognised("date", "iso_utc_time_to_seconds: regex call not found")
         self.method = meths[0]
         # field wiring: names <- int(m.group('<group>')), and the tuple handed to calendar.timegm
         src = {}
@@ -512,11 +512,11 @@ class DateModel(object):
                           and len(val.args) == 1 and isinstance(val.args[0], ast.Call) and isinstance(val.args[0].func, ast.Attribute)
                           and val.args[0].func.attr == "group" and len(val.args[0].args) == 1 and isinstance(val.args[0].args[0], ast.Constant))
                     if not ok:
-                        raise hlib.HarnessError("iso_utc_time_to_seconds: unsupported field assignment %s" % ast.unparse(n)[:80])
+                        raise Unrecognised("date", "iso_utc_time_to_seconds: unsupported field assignment %s" % ast.unparse(n)[:80])
                     src[tgt.id] = val.args[0].args[0].value
         calls = [n for n in ast.walk(f) if isinstance(n, ast.Call) and isinstance(n.func, ast.Attribute) and n.func.attr == "timegm"]
         if len(calls) != 1 or len(calls[0].args) != 1 or not isinstance(calls[0].args[0], ast.Tuple):
-            raise hlib.HarnessError("iso_utc_time_to_seconds: calendar.timegm((...)) call not found")
+            raise Unrecognised("date", "iso_utc_time_to_seconds: calendar.timegm((...)) call not found")
         self.timegm_args = []
         for e in calls[0].args[0].elts[:6]:
             if isinstance(e, ast.Name) and e.id in src:
@@ -524,11 +524,11 @@ class DateModel(object):
             elif isinstance(e, ast.Constant) and isinstance(e.value, int):
                 self.timegm_args.append(e.value)
             else:
-                raise hlib.HarnessError("iso_utc_time_to_seconds: unsupported timegm argument %s" % ast.unparse(e))
+                raise Unrecognised("date", "iso_utc_time_to_seconds: unsupported timegm argument %s" % ast.unparse(e))
         self.dt_args = None
         dts = [n for n in ast.walk(f) if isinstance(n, ast.Call) and ast.unparse(n.func) in ("datetime.datetime", "datetime.date")]
         if len(dts) > 1:
-            raise hlib.HarnessError("iso_utc_time_to_seconds: several datetime constructions")
+            raise Unrecognised("date", "iso_utc_time_to_seconds: several datetime constructions")
         if dts:
             self.dt_args = []
             for e in dts[0].args:
@@ -537,13 +537,13 @@ class DateModel(object):
                 elif isinstance(e, ast.Constant) and isinstance(e.value, int):
                     self.dt_args.append(e.value)
                 else:
-                    raise hlib.HarnessError("iso_utc_time_to_seconds: unsupported datetime argument %s" % ast.unparse(e))
+                    raise Unrecognised("date", "iso_utc_time_to_seconds: unsupported datetime argument %s" % ast.unparse(e))
             if dts[0].keywords or len(self.dt_args) not in (3, 6):
-                raise hlib.HarnessError("iso_utc_time_to_seconds: unsupported datetime call %s" % ast.unparse(dts[0]))
+                raise Unrecognised("date", "iso_utc_time_to_seconds: unsupported datetime call %s" % ast.unparse(dts[0]))
         rets = [n for n in ast.walk(f) if isinstance(n, ast.Return)]
         if len(rets) != 1 or not (isinstance(rets[0].value, ast.BinOp) and isinstance(rets[0].value.op, ast.Add) and rets[0].value.left is calls[0]
                                   and isinstance(rets[0].value.right, ast.Name)):
-            raise hlib.HarnessError("iso_utc_time_to_seconds: return is not 'calendar.timegm(...) + <subseconds>'")
+            raise Unrecognised("date", "iso_utc_time_to_seconds: return is not 'calendar.timegm(...) + <subseconds>'")
         # widths of the named digit groups of the live regex
         self.widths = {}
         C = _rx.C
@@ -557,10 +557,12 @@ class DateModel(object):
                     walk(av[3])
         walk(self.rx.tree)
         f2 = _fn_ast(time_format.parse_date)
+        if not any(isinstance(n, ast.Call) and ast.unparse(n.func) == "iso_utc_time_to_seconds" for n in ast.walk(f2)):
+            raise Unrecognised("date", "parse_date does not go through iso_utc_time_to_seconds")
         adds = [n for n in ast.walk(f2) if isinstance(n, ast.BinOp) and isinstance(n.op, ast.Add) and isinstance(n.right, ast.Constant)
                 and isinstance(n.left, ast.Name) and n.left.id == "s"]
         if len(adds) != 1:
-            raise hlib.HarnessError("parse_date: 's + <constant>' not found")
+            raise Unrecognised("date", "parse_date: 's + <constant>' not found")
         self.appended = adds[0].right.value
 
     def _flatten(self):
@@ -959,6 +961,140 @@ print("returned", v); sys.exit(0)
 '''
 
 
+TZS = ("UTC", "America/New_York", "Asia/Kolkata")
+
+
+def tz_prelude(tz):
+    return "import os, time\nos.environ['TZ'] = %r\ntime.tzset()\nprint('TZ =', %r)\n" % (tz, tz)
+
+
+class in_tz(object):
+    """run real code with the process time zone set (parse results must not depend on it)"""
+
+    def __init__(self, tz):
+        self.tz = tz
+
+    def __enter__(self):
+        import os
+        self.saved = os.environ.get("TZ")
+        os.environ["TZ"] = self.tz
+        time.tzset()
+
+    def __exit__(self, *a):
+        import os
+        if self.saved is None:
+            os.environ.pop("TZ", None)
+        else:
+            os.environ["TZ"] = self.saved
+        time.tzset()
+
+
+BODY_DATE_TZ = '''
+import calendar
+try:
+    v = parse_date(W)
+except Exception as e:
+    print("VIOLATION: documented date rejected:", type(e).__name__, e); sys.exit(1)
+y, mo, d = [int(x) for x in W.split("-")]
+want = calendar.timegm((y, mo, d, 0, 0, 0, 0, 1, 0))
+print("returned", v, "midnight UTC of that day is", want, "difference", v - want, "s")
+sys.exit(1 if v != want else 0)
+'''
+
+
+def check_dates_in_timezones(dates):
+    """real parse_date on documented dates under several TZ settings: must be midnight UTC of that day whatever the zone"""
+    import calendar
+    n = 0
+    for tz in TZS:
+        with in_tz(tz):
+            for w in dates:
+                (y, mo, d) = [int(x) for x in w.split("-")]
+                want = calendar.timegm((y, mo, d, 0, 0, 0, 0, 1, 0))
+                try:
+                    got = time_format.parse_date(w)
+                except Exception as e:
+                    raise RealCodeViolation("parse_date", w, "parse_date(%r) raised %s with TZ=%s" % (w, type(e).__name__, tz), tz=tz,
+                                            body=BODY_DATE_TZ, cls="documented-date-rejected")
+                if got != want:
+                    raise RealCodeViolation("parse_date", w, "parse_date(%r) = %r with TZ=%s, midnight UTC is %r" % (w, got, tz, want), tz=tz,
+                                            body=BODY_DATE_TZ, cls="date-depends-on-timezone")
+                # round trip through the node's own printer: parse_date(iso_utc_date(t)) == t - t % 86400 for instants t of that day
+                for off in (0, 43200, 86399):
+                    t = want + off
+                    printed = time_format.iso_utc_date(t)
+                    if printed != w or time_format.parse_date(printed) != t - t % 86400:
+                        raise RealCodeViolation("parse_date", w, "parse_date(iso_utc_date(%d)) != %d with TZ=%s (iso_utc_date gives %r)" % (
+                            t, t - t % 86400, tz, printed), tz=tz, body=BODY_DATE_TZ, cls="date-roundtrip")
+                n += 1
+    return n
+
+
+def solver_dates(q, n_per_month=2):
+    """documented dates chosen by the solver: for every month, valid days in different years (1971..2037, so that every platform time
+    function can represent them), pairwise different, including the last day of the month"""
+    y, m, d = z3.Ints("y m d")
+    out = []
+    for month in range(1, 13):
+        block = []
+        for j in range(n_per_month):
+            cons = [m == month, 1971 <= y, y <= 2037, 1 <= d, d <= month_len(y, m)] + block
+            if j == 1:
+                cons.append(d == month_len(y, m))
+            r, mod = q.check(cons, "date:m%d#%d" % (month, j))
+            if r != "sat":
+                break
+            yy, dd = mod.eval(y, model_completion=True).as_long(), mod.eval(d, model_completion=True).as_long()
+            out.append("%04d-%02d-%02d" % (yy, month, dd))
+            block.append(z3.Or(y != yy, d != dd))
+    return out
+
+
+def date_differential(ctx, why):
+    """fallback for parse_date when its structure is not recognised: solver-chosen documented dates must come back as midnight UTC
+    under several TZ settings; solver-chosen malformed / impossible dates must be rejected.  VIOLATED with a replay or INCONCLUSIVE."""
+    q = Q(ctx)
+    info = {"structure_not_recognised": why, "mode": "solver-generated probes confirmed on the real function"}
+    res = {"status": "inconclusive", "nonvacuous": True, "info": info,
+           "detail": "model extraction does not apply (%s); differential probes found no violation, nothing is proved" % why}
+    dates = solver_dates(q)
+    info["probes"] = len(dates) * len(TZS)
+    try:
+        check_dates_in_timezones(dates)
+    except RealCodeViolation as e:
+        res.update(status="violated", witness_class=e.cls, model=repr(e.w), call="parse_date(%r) with TZ=%s" % (e.w, e.tz),
+                   replay_src=mk_replay(e.w, tz_prelude(e.tz) + e.body))
+        res.pop("detail", None)
+        info["what"] = e.what
+        return q.finish(res)
+    # impossible dates (day beyond the month) and malformed shapes must be rejected
+    y, m, d = z3.Ints("y m d")
+    bad = []
+    for cons in ([1 <= m, m <= 12, d > month_len(y, m), d <= 99], [m == 0, d == 10], [m >= 13, m <= 99, d == 10], [1 <= m, m <= 12, d == 0]):
+        r, mod = q.check([1971 <= y, y <= 2037] + cons, "bad-date")
+        if r == "sat":
+            bad.append("%04d-%02d-%02d" % tuple(mod.eval(t, model_completion=True).as_long() for t in (y, m, d)))
+    x = z3.String("x")
+    DOC = spec_date_lang()
+    low = chars_re([(0x61, 0x7A)])
+    for (label, L) in (("date + letters", cat(lit_re("2009-01-16"), z3.Plus(low))), ("letters + date", cat(z3.Plus(low), lit_re("2009-01-16"))),
+                       ("other separators", cat(z3.Loop(D(), 4, 4), chars_re([(0x2E, 0x2F)]), z3.Loop(D(), 2, 2), chars_re([(0x2E, 0x2F)]), z3.Loop(D(), 2, 2))),
+                       ("short fields", cat(z3.Loop(D(), 4, 4), lit_re("-"), z3.Loop(D(), 1, 1), lit_re("-"), z3.Loop(D(), 1, 1)))):
+        bad.extend(_models(q, x, [z3.InRe(x, L), z3.Not(z3.InRe(x, DOC)), z3.Length(x) <= 16], 2, label))
+    info["probes"] += len(bad)
+    for w in bad:
+        try:
+            got = time_format.parse_date(w)
+        except Exception:
+            continue
+        res.update(status="violated", witness_class="malformed-date-accepted", model=repr(w), call="parse_date(%r) = %r" % (w, got),
+                   replay_src=mk_replay(w, "try:\n    v = parse_date(W)\nexcept Exception as e:\n    print('rejected with', type(e).__name__); sys.exit(0)\n"
+                                        "print('VIOLATION: not a calendar date in the documented format, accepted and read as', v); sys.exit(1)\n"))
+        res.pop("detail", None)
+        return q.finish(res)
+    return q.finish(res)
+
+
 def _models(q, x, constraints, n, label):
     """up to n different solver models of the string variable x under the constraints"""
     out = []
@@ -1069,12 +1205,15 @@ def guarded(f):
         try:
             return f(ctx)
         except Unrecognised as e:
+            if e.kind == "date":
+                return date_differential(ctx, e.why)
             return differential(e.kind, ctx, e.why)
         except RealCodeViolation as e:
             q = Q(ctx)
-            return q.finish({"status": "violated", "nonvacuous": True, "witness_class": "exception-escapes", "model": repr(e.w),
-                             "call": "%s(%r)" % (e.fn, e.w), "info": {"found": "while comparing the extracted model with the real function on the corpus"},
-                             "replay_src": mk_replay(e.w, "FN = %s\n" % e.fn + BODY_NO_ESCAPE)})
+            return q.finish({"status": "violated", "nonvacuous": True, "witness_class": e.cls, "model": repr(e.w),
+                             "call": "%s(%r)%s" % (e.fn, e.w, (" with TZ=%s" % e.tz) if e.tz else ""),
+                             "info": {"found": "while comparing the extracted model with the real function", "what": e.what},
+                             "replay_src": mk_replay(e.w, (tz_prelude(e.tz) if e.tz else "") + (e.body or ("FN = %s\n" % e.fn + BODY_NO_ESCAPE)))})
     run.__name__ = f.__name__
     run.__doc__ = f.__doc__
     return run
@@ -1485,6 +1624,10 @@ def ob_date_fields(ctx):
     # real function on a grid of field values)
     info["datetime_arguments"] = dm.dt_args
     info["field_model_validation"] = validate_date_code_model(dm)
+    # the arithmetic model knows nothing about the process time zone: the real parse_date is run on solver-chosen documented dates
+    # (two per month, incl. month ends) under several TZ settings and must give midnight UTC every time
+    info["timezone_probes"] = check_dates_in_timezones(solver_dates(q))
+    info["timezones"] = list(TZS)
     returns, code_value = date_code_model(dm, fld)
     valid = z3.And(1 <= y, 1 <= m, m <= 12, 1 <= d, d <= month_len(y, m), H <= 23, M <= 59, S <= 59)
     natural = civil_days(y, m, d) * 86400 + H * 3600 + M * 60 + S
